@@ -39,6 +39,19 @@ def region_replace(rng, toks):
                 if b.endswith('*') and '*/' in b + '*/'[:0]:
                     break
             out.append('/*' + b + '*/')
+        elif tt is T.Name and len(v) >= 2 and v[0] == '´' and v[-1] == '´':
+            out.append('´' + (body(['´', '\\']) or 'q') + '´')
+        elif tt is T.Literal and len(v) >= 4 and v[0] == '$' and v.endswith(v[:v.index('$', 1) + 1]) and len(v) >= 2 * (v.index('$', 1) + 1):
+            tag = v[:v.index('$', 1) + 1]
+            b = body([tag, '$'] if tag == '$$' else [tag])
+            while tag in b or (b + tag[:1]).find(tag) >= 0 and False:
+                b = b.replace(tag, '')
+            out.append(tag + b + tag)
+        elif tt is T.Comment.Single and v.startswith('# ') and v.endswith('\n') and not v.startswith('# +'):
+            b = body(['\n', '\r'])
+            if b.startswith('+'):
+                b = ' ' + b
+            out.append('# ' + b + '\n')
         elif tt is T.Comment.Single and v.startswith('--') and v.endswith('\n') and not v.startswith('--+'):
             b = body(['\n', '\r'])
             if b.startswith('+'):
@@ -146,8 +159,7 @@ def dictionary_sweep(ctx):
     import props.C18 as C18
     rng = ctx.rng
     words = [w for w in C18.all_dictionary_words() if w not in ('BEGIN', 'DECLARE', 'END', 'CREATE', 'GO')]
-    if ctx.quick():
-        words = [w for w in words if rng.random() < 0.3] + ['FOR', 'IF', 'WHILE', 'CASE', 'LOOP', 'EXISTS', 'UPDATE']
+    # exhaustive in both tiers (about 800 words x 5 shapes, 4 s): a change that concerns ONE dictionary word (GOTO for GO…) must not depend on a sample
     shapes = ['select %s x from t; select 2', 'select f(a %s b) from t; select 2; select 3', 'create view v as select %s from u; select 2',
               'create table c as (select a from x %s y); select 2; select 3', 'insert into t values (1, %s 2); select 2']
     for sh in shapes:
@@ -163,9 +175,70 @@ def dictionary_sweep(ctx):
                 ctx.fail('plain script (dictionary sweep): number of statements', text, observed=got, required=want)
 
 
+REGION_BODIES = ['', ';', 'a;b', ';\n;', "'", '"', '`', '´', '--', '-- ;', '/*', '/* ;', '$$', '$t$', '$1', '$1;$2', 'a\\b;', 'a\nb;c', ' ; ', '# ;', '[;', '];', '(;', ');(',
+                 'end;', 'begin;', 'é;ß', ';\r\n;', "x''", '""', '*;/', '* /;', '+;']
+
+
+def region_forms():
+    """(kind, text) for every opaque-region kind of the lexer x every body of REGION_BODIES that lacks the kind's terminator, plus the kind's own
+    escape forms with a `;` behind them; kinds 'v' can stand for a value, kinds 'c' for a comment in a gap"""
+    out = []
+    for q, esc in (("'", ["''", "\\'"]), ('"', ['""', '\\"']), ('`', ['``']), ('´', ['´´'])):
+        for b in REGION_BODIES:
+            if q in b or b.endswith('\\'):
+                continue
+            if q == '"' and b == '':
+                continue          # "" alone is the empty quoted name; fine, but `""` + body is covered by the escape forms
+            out.append(('v', q + b + q))
+        for e in esc:
+            out.append(('v', q + 'a' + e + ';b' + q))
+            out.append(('v', q + e + ';' + q))
+    for tag in ['$$', '$t$', '$_t$', '$é$', '$T1$', '$body$']:
+        for b in REGION_BODIES:
+            if tag in b or (tag == '$$' and '$' in b and '$$' in (b + '$')) or (b + tag).find(tag) < len(b):
+                continue
+            out.append(('v', tag + b + tag))
+    for b in REGION_BODIES:
+        if '*/' in b or (b + '*/').find('*/') < len(b):
+            continue
+        if not b.startswith('+'):
+            out.append(('c', '/*' + b + '*/'))
+        out.append(('c', '/*+' + b + '*/'))
+    for op in ['--', '-- ', '--+', '# ', '# +']:
+        for b in REGION_BODIES:
+            if '\n' in b or '\r' in b or (op in ('--', '# ') and b.startswith('+')):
+                continue
+            for nl in ('\n', '\r\n', '\r'):
+                out.append(('c', op + b + nl))
+    return out
+
+
+def region_sweep(ctx):
+    """'A semicolon inside a string literal, quoted identifier, dollar-quoted body, comment or parenthesis never ends a statement': every region
+    form of region_forms() in plain scripts — as a value, inside parentheses, in the gap before the separating `;`, and after it"""
+    forms = region_forms()
+    ctx.dist['region-forms'] = len(forms)
+    for kind, r in forms:
+        if kind == 'v':
+            scripts = [('select ' + r + ' x from t; select 2', 2), ('select 1; select f(' + r + ', 1) from t; select 3', 3), ('insert into t values (1, ' + r + '); select 2', 2),
+                       ('select ' + r + '; select ' + r + ' y', 2)]        # the same region again in the next statement (an opener must not pair with a later closer)
+        else:
+            scripts = [('select 1 ' + r + '; select 2', 2), ('select 1; ' + r + 'select 2', 2), ('select (1 ' + r + ') from t ' + r + ';select 2', 2),
+                       ('select 1 ' + r + '; select 2 ' + r + ';select 3', 3)]
+        for text, want in scripts:
+            ctx.evaluations += 1
+            try:
+                got = [len(sqlparse.split(text)), len(sqlparse.parse(text))]
+            except Exception as e:
+                got = 'raised ' + type(e).__name__
+            if got != [want, want]:
+                ctx.fail('plain script (region sweep): number of statements', text, observed=got, required=want)
+
+
 def run(ctx):
     rng = ctx.rng
     dictionary_sweep(ctx)
+    region_sweep(ctx)
     n = ctx.n(400, 12000)
     g = grammar.Gen(rng, feat={'sqlfor': True})
     model_q = []
@@ -185,7 +258,7 @@ def run(ctx):
             continue
         # region replacement: same number of statements, same token count per statement
         toks = oracles.lex(text)
-        if any(tt in (T.String.Single, T.String.Symbol, T.Comment.Multiline, T.Comment.Single) or (tt is T.Name and v[:1] == '`') for tt, v in toks):
+        if any(tt in (T.String.Single, T.String.Symbol, T.Comment.Multiline, T.Comment.Single, T.Literal) or (tt is T.Name and v[:1] in '`´') for tt, v in toks):
             text2 = region_replace(rng, toks)
             a = [len(s) for s in oracles.flat_statements(text)]
             try:
